@@ -28,10 +28,7 @@ def replay(req):
             'file_builder.FileBuilder._remove_empty_dirs', 'cache.Cache.created_files',
             'cache.Cache.created_dirs', 'cache.Cache.read_immutable'):
         return clean_cases(req)
-    if req.get('property') == 'C03' and func.split('#')[0] in (
-            'file_builder.FileBuilder._set_created_dirs', 'file_builder.FileBuilder._commit',
-            'file_builder.FileBuilder.clean', 'cache.Cache.add_created_dirs',
-            'build_dirs.BuildDirs.created_dirs', 'cache.Cache.created_dirs'):
+    if req.get('property') == 'C03':
         r = foreign_cases(req)
         if r.get('reproduced'):
             return r
@@ -664,10 +661,20 @@ def effectiveness_cases(req):
             return [b.list_dir(os.path.join(root, 'in')), b.exists(os.path.join(root, 'zzz')),
                     b.walk(os.path.join(root, 'in'))]
 
+        def mk_probe(b, filename):
+            # a function that looks at its own (build-created) output directory before writing
+            log.append('mk_probe')
+            d = os.path.dirname(filename)
+            seen = [b.is_dir(d), b.list_dir(d), b.exists(filename), b.walk(os.path.dirname(d))]
+            write(filename, repr(seen))
+            return seen
+
         def rootf(b):
             return [b.subbuild('catcher', catcher),
                     b.build_file(os.path.join(root, 'out', 'o.txt'), 'mk', mk),
-                    b.subbuild('lister', lister)]
+                    b.subbuild('lister', lister),
+                    b.build_file(os.path.join(root, 'fresh', 'deep', 'p.txt'), 'mk_probe',
+                                 mk_probe)]
         cache = os.path.join(root, 'cache.gz')
         first = FileBuilder.build(cache, 'n', rootf)
         ino = os.stat(os.path.join(root, 'out', 'o.txt'))
@@ -934,7 +941,23 @@ def rollback_cases(req):
             raise boom
         FileBuilder.build(cache, 'n', f)
 
+    # 8. directory -> file swap: build 1 made outputs below out/data; build 2 builds the FILE
+    #    out/data (the old outputs are moved aside by _make_room) and then raises
+    def prep8(root):
+        cache = os.path.join(root, 'c.gz')
+        FileBuilder.build(cache, 'n', lambda b: (
+            b.build_file(os.path.join(root, 'out', 'data', 'a.txt'), 'mk', mk, 'alpha'),
+            b.build_file(os.path.join(root, 'out', 'data', 'sub', 'b.txt'), 'mk', mk, 'beta'))[0])
+        return cache
+
+    def fail8(root, cache, boom):
+        def f(b):
+            b.build_file(os.path.join(root, 'out', 'data'), 'mk', mk, 'now a file')
+            raise boom
+        FileBuilder.build(cache, 'n', f)
+
     cases = [('new outputs and an overwritten foreign file', prep1, fail1),
+             ('directory of the previous build replaced by an output file', prep8, fail8),
              ('foreign file at a former directory; caught failure, then the directory is made '
               'again by this build', prep7, fail7),
              ('rebuilt output whose old copy was deleted externally', prep2, fail2, ('o',)),
@@ -945,7 +968,7 @@ def rollback_cases(req):
     if 'removed-first' in label:
         pass
     elif 'restore_all' in label:
-        cases.insert(0, cases.pop(3))
+        cases.insert(0, cases.pop(4))
     skip_to_write = 'cache-file-written' in label
     first = None
     for case in cases:
@@ -1420,6 +1443,49 @@ def transparency_cases(req):
                     finally:
                         for r in roots:
                             shutil.rmtree(r, ignore_errors=True)
+    # a caught failing nested build_file, then a regular file appears where its parent directory
+    # would have to be made: from scratch the build_file call now fails in set-up with another
+    # exception (NotADirectoryError escapes); the incremental build must do the same
+    n += 1
+    roots = []
+    try:
+        outs = []
+        for variant in ('incremental', 'scratch'):
+            root = scratch()
+            roots.append(root)
+
+            def bad(b, filename):
+                raise KeyError('cannot build')
+
+            def tolerant(b):
+                try:
+                    b.build_file(os.path.join(root, 'gen', 'sub', 'o.txt'), 'bad', bad)
+                except KeyError:
+                    return 'skipped'
+                return 'built'
+
+            def prog(b):
+                return b.subbuild('tolerant', tolerant)
+
+            def run():
+                try:
+                    return ('ok', FileBuilder.build(os.path.join(root, 'cache.gz'), 'demo', prog))
+                except Exception as e:
+                    return ('raise', type(e).__name__)
+            if variant == 'incremental':
+                run()
+            write(os.path.join(root, 'gen'), 'a regular file where the directory would be')
+            outs.append(run())
+        if outs[0] != outs[1]:
+            return {'reproduced': True,
+                    'check': 'incremental build differs from a from-scratch build',
+                    'input': 'subbuild tolerates a failing build_file(gen/sub/o.txt); then a regular '
+                             'file gen appears',
+                    'observed': {'incremental': repr(outs[0]), 'from_scratch': repr(outs[1])},
+                    'evaluations': n}
+    finally:
+        for r in roots:
+            shutil.rmtree(r, ignore_errors=True)
     return {'reproduced': False, 'evaluations': n}
 
 
@@ -1710,4 +1776,54 @@ def foreign_cases(req):
                             'observed': {'gone': gone}, 'evaluations': n}
             finally:
                 shutil.rmtree(base, ignore_errors=True)
+    # a foreign file planted where a nested build_file failed (and was caught) in the previous
+    # build, while the enclosing record is reused from the cache: nothing passes that path to
+    # build_file in this build, and it is no recorded output -- it must survive commit, rollback
+    # and clean
+    for last in ('build', 'failing build', 'clean'):
+        n += 1
+        base = scratch()
+        try:
+            root = os.path.join(base, 'project')
+            os.mkdir(root)
+            cache = os.path.join(base, 'cache.gz')
+            P = os.path.join(root, 'gen', 'failed.txt')
+
+            def bad(b, filename):
+                raise KeyError('cannot build')
+
+            def outer(b):
+                b.build_file(os.path.join(root, 'gen', 'ok.txt'), 'mk', mk, 'ok')
+                try:
+                    b.build_file(P, 'bad', bad)
+                except KeyError:
+                    return 'tolerated'
+
+            def f(b):
+                return b.subbuild('outer', outer)
+            FileBuilder.build(cache, 'n', f)
+            write(P, 'planted by the user')
+            before = {p_: v for p_, v in snapshot(root).items() if p_ == P}
+            if last == 'build':
+                FileBuilder.build(cache, 'n', f)
+            elif last == 'clean':
+                FileBuilder.clean(cache, 'n')
+            else:
+                def failing(b):
+                    f(b)
+                    raise ValueError('boom')
+                try:
+                    FileBuilder.build(cache, 'n', failing)
+                except ValueError:
+                    pass
+            after = {p_: v for p_, v in snapshot(root).items() if p_ == P}
+            if before != after:
+                return {'reproduced': True,
+                        'check': 'a %s removed or touched a foreign file' % last,
+                        'input': 'previous build: subbuild tolerates a failing build_file(gen/'
+                                 'failed.txt); the user plants a file there; then %s with the '
+                                 'subbuild reused from the cache' % last,
+                        'observed': {'file_still_there': P in after}, 'evaluations': n}
+        finally:
+            shutil.rmtree(base, ignore_errors=True)
     return {'reproduced': False, 'evaluations': n}
